@@ -106,7 +106,7 @@ func (i *interpreter) fsOp(op, path string, mutating bool) {
 		call(i, i.curFrame, 0, m, []value{op, path})
 		fs.monitor = m
 	}
-	if i.world.yieldOnRead && op == "read" {
+	if (i.world.yieldOnRead && op == "read") || (i.world.yieldOnFS && i.sched.cur != i.sched.main) {
 		// reading file content takes long: let every other runnable goroutine
 		// run first (a second deterministic schedule, chosen per harness)
 		i.yield()
